@@ -86,7 +86,16 @@ CHECKS.append(chk("C17", "exploration",
     "State machine directly on kv.DB over the fake store (1-3 handles; Set/Tombstone with unique times in arbitrary order, Commit, Clone, Reopen merging all current versions in a generated order, RemoveTombstones, Diff, TraceHistory; default, conflict-callback and custom-merge modes; gob and JSON node codecs; three node formats; branch factor 2-4096). After every step Get, IsTombstoned, Size and a full cursor scan with times and tombstones must equal a map model of the documented join; Diff must report exactly the keys whose visible value differs, each once, with both values; TraceHistory must start at the current value and yield only values that were Set, in strictly decreasing time; the conflict callback must only see two different live values held by the merged versions.",
     "stateful model-based property-based testing (rapid) against a map reference model"))
 
-for pid in ["C03","C19"]:
+CHECKS.append(chk("C03", "exploration",
+    "Schedules are generated inputs: 2-3 clients run scripts (autocommit writes on their own key ranges, s3db_refresh, read-only opens) on their own goroutines, but every client blocks in the fake store before each LIST and each GET/PUT/DELETE under root/ and runs only when a deterministic scheduler releases it according to the generated schedule, so the interleaving of version-level requests is exactly the generated one. History oracle: for every completed open or refresh the rows of every client must equal one of that client's committed states j, lo<=j<=hi (lo = its commits acknowledged before the open began, hi = its commits started before the open ended); at the end a fresh open must contain every acknowledged commit. Schedules are sampled, not exhausted.",
+    "property-based testing (rapid) with a harness-owned deterministic scheduler at object-store request granularity + history invariant"))
+
+CHECKS.append(chk("C19", "exploration",
+    "Built with the Go race detector: 2-6 connections, one goroutine each (GOMAXPROCS 2/4/16, generated yields), with tables on private prefixes, on a shared prefix with own key ranges, and on the built-in in-memory bucket, running generated streams of writes with connection-specific write times, transactions, scans, s3db_refresh, s3db_vacuum, s3db_version, deadline updates and CREATE/DROP of further tables. Oracles: no race report (the report text is saved beside the case), every goroutine finishes (120 s watchdog with goroutine dump), s3db_conn shows the connection's own values after every statement, written cells carry the connection's own write times, each table's own rows equal the connection's statements applied sequentially, and a final fresh open of the shared prefix equals the union of the sharing connections' models. Thread schedules are the Go scheduler's, not owned by the harness.",
+    "randomised concurrent stress under the Go race detector with per-connection sequential reference models (rapid-generated streams)",
+    note=TRUST + " The race detector is a dynamic happens-before checker over the schedules that happened. AWS_CA_BUNDLE is removed from the environment of the check processes (with it the AWS SDK's NewSession races on the shared http.DefaultClient, an SDK/sandbox artefact)."))
+
+for pid in []:
     NOT_YET[pid] = "check under construction in this session (designed in DESIGN.md section 5); not claimed until its quick tier runs clean on the unchanged tree"
 
 MANIFEST = {
